@@ -3,7 +3,9 @@ import Mimium.Proofs.ParserLoops
 import Mimium.Gen.ParserLoops
 import Mimium.Proofs.Occurs
 import Mimium.Proofs.OccursSeq
+import Mimium.Proofs.TypeRecDetect
 import Mimium.Gen.TypingFacts
+import Mimium.Gen.ParentWriters
 /-!
 # C04 — front end and compile entry points are total on arbitrary text
 
@@ -40,7 +42,30 @@ PROVED here (all inputs, no bounds; axioms ⊆ {propext, Classical.choice, Quot.
   depth ≤ 2 over `?0`, `?1` as a program that makes the real checker unify `?0` with `t`; the model (with the quirk) predicts
   `Circular …` diagnostic vs binding, the harness observes it (and that every cyclic binding let through ends in a stack overflow).
 
-NOT proved (decided by the correspondence run of `tools/props/c04.py`): that the Rust grammar functions terminate as a whole
+* The REPAIRED occurs check (`cls(arg) || cls(ret)`, /repo fa2b0e3; `Model/OccursSeq.lean`, `Proofs/Occurs{Sound,Bound,Seq}.lean`):
+  `C04_occur_check_sound` (on every store, an answer `false`/`true` of the `||` form means `v` is unreachable/reachable from `t`
+  through `vars` and parent pointers), `C04_bind_preserves_acyclic` / `C04_bindVar_preserves_acyclic` (a binding that passed the
+  check never creates a cycle: ranking argument), `C04_occur_check_fuel_bound` (explicit bound: ≤ `size t + total σ` nested
+  calls on an acyclic store; `get_root` ≤ one per entry), and over ALL histories `C04_occurs_check_terminates`: for every list
+  of requests — calls of `unify_types` / `unify_types_args` on arbitrary types (bound variables are replaced by their roots, as
+  `get_root` does; variable-variable links included) and `extend_record_with_field`, i.e. all 13 statements of /repo that assign
+  a `parent` (`C04_parent_writers_pinned`, re-counted from the source by the translator) — processed from the empty store, no
+  `get_root`/`occur_check` runs out of fuel `fuelBound reqs = (n+1)(m+2n)+1`, and every intermediate store is acyclic;
+  `C04_run_independent_of_fuel`; `C04_occur_check_total_on_reachable_stores` (the statement that
+  `C04_occur_check_counterexample` refutes for `&&` holds for `||`).
+* `Model/TypeRec.lean`: `C04_substitute_type_terminates` (returns within `size t + total σ` calls on acyclic stores, hence on all
+  stores built with `||`), `C04_substitute_type_diverges_on_cycle`, `C04_substitute_type_counterexample` (cause of finding T05:
+  `fn{a` = `fn a(){ a }` binds `?0 := () -> ?0` under `&&`; closed by fa2b0e3); `C04_resolve_type_alias_total_partial`
+  (returns within `t.size + atotal env` calls if the alias graph THROUGH the name fallback is acyclic),
+  `C04_resolve_type_alias_counterexample` (finding T21, open: `type alias A = A` is flagged by the cycle detector but stays
+  registered; `mod m { type alias A = A }` is not even flagged, the detector ignores the fallback; any use of `A` diverges),
+  `C04_alias_detector_complete` (the detector terminates and is complete for the graph it looks at: dropping the flagged
+  aliases would make `resolve_type_alias` total when names are looked up as written).
+  These two models are hand ports tied to the code only by their witnesses (replayed by every check run: `corpus/C04/seeds.txt`).
+
+NOT proved (decided by the correspondence run of `tools/props/c04.py`): that the request sequences of `Model/OccursSeq.lean`
+are all the type checker does to the store beyond the pinned inventory of `parent` writers (the structural arms of
+`unify_types` are read off the source, not modelled); that the Rust grammar functions terminate as a whole
 (mutual recursion between the grammar functions is not modelled; each loop is proved to terminate GIVEN that the calls in its
 body return), absence of panics, lowering, type inference, MIR generation and both back ends.  Those are exercised under
 `catch_unwind` + wall clock + bounded stack in child processes on exhaustive token sequences and mutated corpus texts.
@@ -277,6 +302,123 @@ example :
     (run 106 [] reqs).bind List.getLast? = some [(3, .unary (.var 2)), (0, .anyOf (.fn (.var 1) .other) (.var 3)),
       (1, .var 2), (0, .fn (.var 1) .other)] := by decide +kernel
 
+/-! ## Two more unbounded recursions of the type checker (`Model/TypeRec.lean`): `substitute_type` (finding T05, closed by
+/repo fa2b0e3) and `resolve_type_alias` (finding T21, open) -/
+
+open Mimium.Occurs Mimium.TypeRec in
+/-- `InferContext::substitute_type` (follows every parent pointer, no cycle check) returns on every acyclic store within
+`size t + total σ` nested calls — in particular on every store the checker builds with the `||` occurs check, for ALL
+request sequences. -/
+theorem C04_substitute_type_terminates :
+    (∀ (σ : Store), Acyclic σ → ∀ (t : Ty) (fuel : Nat), size t + total σ ≤ fuel → ∃ r, subst σ fuel t = some r) ∧
+    (∀ (reqs : List Req) (fuel : Nat) (trace : List Store), run fuel [] reqs = some trace → ∀ σ ∈ trace,
+      ∀ (t : Ty) (f : Nat), size t + total σ ≤ f → ∃ r, subst σ f t = some r) := by
+  refine ⟨fun σ h t fuel hf => subst_total_bound σ h t fuel hf, ?_⟩
+  intro reqs fuel trace h σ hσ t f hf
+  have hmax : run (max fuel (fuelBound reqs)) [] reqs = some trace := run_fuel_le _ _ (Nat.le_max_left _ _) reqs [] trace h
+  obtain ⟨tr, hrun, _, hall⟩ := C04_occurs_check_terminates reqs (max fuel (fuelBound reqs)) (Nat.le_max_right _ _)
+  rw [hmax] at hrun
+  cases hrun
+  exact subst_total_bound σ (hall σ hσ).1 t f hf
+
+open Mimium.Occurs Mimium.TypeRec in
+/-- conversely `substitute_type(t)` never returns when a variable that lies on a cycle can be reached from `t` -/
+theorem C04_substitute_type_diverges_on_cycle (σ : Store) (t p : Ty) (v : Nat) (hreach : Reach σ v t)
+    (hp : parent σ v = some p) (hcyc : Reach σ v p) : ∀ fuel, subst σ fuel t = none := by
+  intro fuel
+  obtain ⟨w, hw, hr⟩ := hreach
+  refine subst_none_of_cycle σ fuel t w v hw hr ?_ (by simp [hp])
+  intro p' hp'
+  rw [hp] at hp'
+  cases hp'
+  exact hcyc
+
+open Mimium.Occurs Mimium.TypeRec in
+/-- the CAUSE of finding T05 (`fn{a`, recovered by the parser as the well-formed `fn a(){ a }`; both overflow the stack on
+/repo 1281f69 and neither does from fa2b0e3 on): `letrec a = || a` asks for `?0 := () -> ?0`; the `&&` occurs check
+answers `cls(()) && cls(?0) = false`, the binding is made, and `substitute_type(?0)` then returns for NO fuel; with `||`
+the binding is refused. -/
+theorem C04_substitute_type_counterexample :
+    bindVar [] true 8 0 (.fn .other (.var 0)) = some (some [(0, .fn .other (.var 0))]) ∧
+    bindVar [] false 8 0 (.fn .other (.var 0)) = some none ∧
+    (∀ fuel, subst [(0, .fn .other (.var 0))] fuel (.var 0) = none) ∧
+    ¬ (∀ (σ : Store) (t : Ty), ∃ F r, ∀ fuel, F ≤ fuel → subst σ fuel t = some r) := by
+  have hdiv : ∀ fuel, subst [(0, .fn .other (.var 0))] fuel (.var 0) = none :=
+    C04_substitute_type_diverges_on_cycle [(0, .fn .other (.var 0))] (.var 0) (.fn .other (.var 0)) 0
+      ⟨0, by simp [vars], .refl 0⟩ (by simp [parent]) ⟨0, by simp [vars], .refl 0⟩
+  refine ⟨by decide, by decide, hdiv, ?_⟩
+  intro h
+  obtain ⟨F, r, hF⟩ := h [(0, .fn .other (.var 0))] (.var 0)
+  have := hF F (Nat.le_refl _)
+  rw [hdiv F] at this
+  cases this
+
+open Mimium.TypeRec in
+/-- PARTIAL (what holds of `resolve_type_alias`; the full statement `∀ fb env t, ∃ F r, ∀ fuel ≥ F, resolve fb env fuel t =
+some r` is refuted below): if the alias graph — an alias points to the keys under which the names of its target are looked
+up, i.e. AFTER `resolve_type_alias_symbol_fallback` — has no cycle, `resolve_type_alias(t)` returns within
+`t.size + atotal env` nested calls. -/
+theorem C04_resolve_type_alias_total_partial (fb : Nat → Nat) (env : AEnv) (h : AcyclicA fb env) (t : ATy) (fuel : Nat)
+    (hf : t.size + atotal env ≤ fuel) : ∃ r, resolve fb env fuel t = some r :=
+  resolve_total_bound fb env h t fuel hf
+
+open Mimium.TypeRec in
+/-- NEGATION on two witnesses (finding T21; `type alias=Gain fn(f:Gain{` is recovered as `type alias Gain = Gain` plus a use
+of `Gain`). (1) `type alias A = A`: the detector of `register_type_aliases` FLAGS the alias (diagnostic `Recursive type
+alias 'A'`) but leaves it registered, and `resolve_type_alias` of any use of `A` returns for no fuel (`fn dsp(x:A){x}` overflows
+the stack). (2) `mod m { type alias A = A }`: the key is `m$A` (10), the target names `A` (0) and the fallback maps `A` to the
+only key ending in `$A`; the detector, which looks names up WITHOUT the fallback, flags nothing — no diagnostic at all — and
+`resolve_type_alias` diverges all the same. -/
+theorem C04_resolve_type_alias_counterexample :
+    flagged [(0, .alias 0)] 2 = [0] ∧ (∀ fuel, resolve id [(0, .alias 0)] fuel (.alias 0) = none) ∧
+    (∀ F, flagged [(10, .alias 0)] (F + 2) = []) ∧
+    (∀ fuel, resolve (fun n => if n = 0 then 10 else n) [(10, .alias 0)] fuel (.alias 0) = none) ∧
+    ¬ (∀ (fb : Nat → Nat) (env : AEnv) (t : ATy), ∃ F r, ∀ fuel, F ≤ fuel → resolve fb env fuel t = some r) := by
+  refine ⟨by decide, resolve_diverges_self, ?_, resolve_diverges_mangled, ?_⟩
+  · intro F
+    simp [flagged, detect_succ, lookup, aliasesOf, findMap]
+  · intro h
+    obtain ⟨F, r, hF⟩ := h id [(0, .alias 0)] (.alias 0)
+    have := hF F (Nat.le_refl _)
+    rw [resolve_diverges_self F] at this
+    cases this
+
+open Mimium.TypeRec in
+/-- the detector itself is total (`env.length + 1` nested calls) and COMPLETE for the graph it looks at: if every name in a
+target is looked up under itself, then after DROPPING the flagged aliases — the repair; /repo only reports them —
+`resolve_type_alias` returns on every type. -/
+theorem C04_alias_detector_complete (fb : Nat → Nat) (env : AEnv) (F : Nat) (hF : env.length + 1 ≤ F)
+    (hfb : ∀ k t, lookup env k = some t → ∀ n ∈ aliasesOf t, fb n = n) :
+    (∀ k, detect env F k [] ≠ none) ∧ AcyclicA fb (prune (flagged env F) env) ∧
+    ∀ (t : ATy) (fuel : Nat), t.size + atotal (prune (flagged env F) env) ≤ fuel →
+      ∃ r, resolve fb (prune (flagged env F) env) fuel t = some r := by
+  have hac : AcyclicA fb (prune (flagged env F) env) := by
+    apply prune_acyclic fb env F (flagged env F) _ hfb
+    intro k a hl hnb
+    have hne := detect_total env F k hF
+    cases hd : detect env F k [] with
+    | none => exact absurd hd hne
+    | some o =>
+      cases o with
+      | none => rfl
+      | some c =>
+        exfalso
+        apply hnb
+        simp only [flagged, List.mem_filter]
+        exact ⟨mem_keys_of_lookup env k (by simp [hl]), by simp [hd]⟩
+  exact ⟨fun k => detect_total env F k hF, hac, fun t fuel hf => resolve_total_bound fb _ hac t fuel hf⟩
+
+open Mimium.TypeRec in
+/-- non-vacuity of `C04_resolve_type_alias_total_partial` and `C04_alias_detector_complete`: `A = (B, B)`, `B = [C]`, `C = C`,
+`D = (float) -> A`: the detector flags all four (a cycle can be reached from each; `A -> B -> C` reports the cycle `[C]`);
+with `C = float` instead nothing is flagged and `D` resolves to `(float) -> ([float], [float])`. -/
+example :
+    flagged [(0, .pair (.alias 1) (.alias 1)), (1, .unary (.alias 2)), (2, .alias 2), (3, .pair .leaf (.alias 0))] 5 = [0, 1, 2, 3] ∧
+    detect [(0, .pair (.alias 1) (.alias 1)), (1, .unary (.alias 2)), (2, .alias 2)] 5 0 [] = some (some [2]) ∧
+    flagged [(0, .pair (.alias 1) (.alias 1)), (1, .unary (.alias 2)), (2, .leaf), (3, .pair .leaf (.alias 0))] 5 = [] ∧
+    resolve id [(0, .pair (.alias 1) (.alias 1)), (1, .unary (.alias 2)), (2, .leaf), (3, .pair .leaf (.alias 0))] 9 (.alias 3)
+      = some (.pair .leaf (.pair (.unary .leaf) (.unary .leaf))) := by decide
+
 open Mimium.Occurs in
 /-- PARTIAL: the range check of tuple projection is right for every index except `idx = len`: below it yields the element,
 above it the `IndexOutOfRange` diagnostic; the out-of-bounds access happens exactly at `idx = len`. -/
@@ -329,6 +471,16 @@ the OLD code), and the projection check rejects `idx = len` (`projCheckLe`). Rev
 search then replays the old witnesses (`fn f(x){ x(x) }`, `t.2` on a pair). -/
 theorem C04_typing_facts_pinned :
     Mimium.Gen.occursFnArmIsOr = true ∧ Mimium.Gen.projCheckRejectsLen = true := by decide
+
+/-- translator facts, pinned: the statements of /repo/crates that assign `parent = Some(…)` outside test modules are the 12 of
+`typing/unification.rs` (per function: four in the variable-variable arm — two of them behind `parent ≠ None` patterns that a
+root never matches —, one in each of the other two variable arms) and the one of `extend_record_with_field` in `typing.rs`;
+both unification functions take `get_root()` of both arguments and match on the roots. `Model/OccursSeq.lean` models
+exactly these; a new writer breaks this theorem (and with it the coverage claim of `C04_occurs_check_terminates`). -/
+theorem C04_parent_writers_pinned :
+    Mimium.Gen.parentWriteSites =
+      [("lib/mimium-lang/src/compiler/typing.rs", 1), ("lib/mimium-lang/src/compiler/typing/unification.rs", 12)] ∧
+    Mimium.Gen.unifyMatchesOnRoots = 2 := by decide
 
 open Mimium.Occurs in
 /-- PARTIAL: up to 255 nested quote levels the stage counter is exact. -/
